@@ -130,6 +130,8 @@ class Known:
             if e.get("target") not in (None, "*", target) and not (
                     isinstance(e.get("target"), list) and target in e["target"]):
                 continue
+            if e.get("cfgs") and cfg not in e["cfgs"]:
+                continue
             pred = self.preds.get(e["predicate"])
             if pred is None:
                 continue
@@ -160,6 +162,10 @@ def _run_job(job):
                requested=job["n"], budget_hit=False)
     state = {"last_fail": None}
     cfg = job["cfg"]
+    if time.time() > job["deadline"]:
+        out["budget_hit"] = True
+        out["labels"] = env.labels
+        return out
     if target.fuzz:
         try:
             _run_fuzz_job(job, target, out)
@@ -425,8 +431,8 @@ def run_check(prop, tier, seed, jobs=16, only=None, scale=1.0):
                 k += 1
                 joblist.append(dict(module=modname, target=t.name, cfg=c, n=(n + parts - 1) // parts,
                                     seed=(seed * 1009 + k) & 0xFFFFFFFFFFFF, deadline=deadline, tier=tier))
-    # interleave so that every target gets early coverage
-    joblist.sort(key=lambda j: j["seed"] % 9973)
+    # deterministic shuffle so that every target gets early coverage and a budget hit thins all targets evenly
+    joblist.sort(key=lambda j: hashlib.blake2b(str(j["seed"]).encode(), digest_size=8).digest())
 
     results = []
     harness_errors = []
@@ -574,6 +580,11 @@ def run_check(prop, tier, seed, jobs=16, only=None, scale=1.0):
     except ImportError:
         pass
     except Exception as e:
+        if nviol:
+            # a grossly broken tree can stop every job at its first example; the verdict stands
+            json.dump(ev, open(evp, "w"), indent=1, sort_keys=True)
+            print("%s %s: %d evaluations, %d violations (evidence thin: %s)" % (prop, tier, evaluations, nviol, str(e)[:120]))
+            return 1
         print("HARNESS-ERROR: evidence does not validate: %s" % str(e)[:500])
         json.dump(ev, open(evp + ".invalid", "w"), indent=1)
         return 2
